@@ -16,8 +16,18 @@ import project as PJ
 Z3_TIMEOUT_MS = 20000
 
 
+def build_kwargs(build_kw, solver_kw):
+    """early_solver=True in a problem's build options stands for "create the solver first, with these solver kwargs"."""
+    bk = dict(build_kw or {})
+    if bk.get("early_solver") is True:
+        bk["early_solver"] = dict(solver_kw)
+    elif "early_solver" in bk and not bk["early_solver"]:
+        del bk["early_solver"]
+    return bk
+
+
 def initialized_solver(p, build_kw=None, **solver_kw):
-    b = B.build(p, **(build_kw or {}))
+    b = B.build(p, **build_kwargs(build_kw, solver_kw))
     for i, ind in enumerate(p["inds"]):
         if b.inds[i] is not None:
             ind["solname"] = b.inds[i].name
